@@ -236,6 +236,33 @@ def views(rng, nview, counters, digests, violations, samples):
                 hi = view._scaled_to_native(np.full(n, rx[1]))
                 if not (np.allclose(lo, lims[:, 0], rtol=1e-12, atol=1e-12) and np.allclose(hi, lims[:, 1], rtol=1e-12, atol=1e-12)):
                     violations.append(dict(wit, what="C16 rescale_x=%s does not map the interval ends to the x limits: %s/%s vs %s" % (rx, lo, hi, lims.tolist())))
+            # ---- the view's PUBLIC accessors: get_x() at knob values written by the user, against knob / weight mapped
+            #      affinely from the x limits onto rescale_x (computed here); set_x(get_x()) puts the same knobs back;
+            #      get_x_limits() is rescale_x for every knob, the x limits otherwise
+            kv = np.array([rng.uniform(lo + 0.05 * (hi - lo), hi - 0.05 * (hi - lo)) for lo, hi in spec["limits"]], dtype=float)
+            for nm_, v_ in zip(S.names, kv):
+                dict.__setitem__(S.cont, nm_, float(v_))
+            wv_ = np.array(spec["wv"], dtype=float)
+            xl_ = np.array(spec["limits"], dtype=float) / wv_[:, None]
+            want = kv / wv_ if rx is None else rx[0] + (kv / wv_ - xl_[:, 0]) * (rx[1] - rx[0]) / (xl_[:, 1] - xl_[:, 0])
+            counters["view_accessor_round_trips"] = counters.get("view_accessor_round_trips", 0) + 1
+            try:
+                gx = np.array(view.get_x(), dtype=float)
+                gl = np.array(view.get_x_limits(), dtype=float)
+                for nm_ in S.names:
+                    dict.__setitem__(S.cont, nm_, 0.0)
+                view.set_x(gx)
+                back_k = np.array([float(S.cont[nm_]) for nm_ in S.names])
+            except Exception as exc:
+                violations.append(dict(wit, what="C16 view(return_scalar=%s, rescale_x=%s) get_x/get_x_limits/set_x raised %s: %s" % (rs, rx, type(exc).__name__, str(exc)[:100])))
+                continue
+            want_l = xl_ if rx is None else np.array([[rx[0], rx[1]]] * n, dtype=float)
+            if gx.shape != want.shape or not np.allclose(gx, want, rtol=1e-12, atol=1e-12):
+                violations.append(dict(wit, what="C16 view(rescale_x=%s).get_x() = %s at knobs %s, weights %s, limits %s: expected %s" % (rx, gx.tolist(), kv.tolist(), spec["wv"], spec["limits"], want.tolist())))
+            elif not np.allclose(back_k, kv, rtol=1e-12, atol=1e-12):
+                violations.append(dict(wit, what="C16 view(rescale_x=%s).set_x(get_x()) left the knobs at %s, they were %s" % (rx, back_k.tolist(), kv.tolist())))
+            elif gl.shape != want_l.shape or not np.allclose(gl, want_l, rtol=1e-12, atol=1e-12):
+                violations.append(dict(wit, what="C16 view(rescale_x=%s).get_x_limits() = %s, expected %s" % (rx, gl.tolist(), want_l.tolist())))
             # ---- Jacobian of the view vs central differences of the same view -------------------
             try:
                 J = np.atleast_2d(np.array(view.get_jacobian(xv), dtype=float))
